@@ -111,6 +111,7 @@ struct Kernel {
   int new_conn_fd_for_accept = -1;
   std::vector<int> accepted_fds;
   void (*on_socket)(int fd) = nullptr;  // called for every descriptor returned by socket()
+  void (*on_recv)(int fd, long nth) = nullptr;  // called at the start of every recv() on a simulated descriptor (a signal handler may run here)
 
   void reset() { *this = Kernel(); }
   Sock *get(int fd) {
@@ -309,6 +310,7 @@ ssize_t __wrap_recv(int fd, void *buf, size_t len, int flags) {
     return -1;
   }
   s->recv_calls++;
+  if (k.on_recv) k.on_recv(fd, s->recv_calls);
   if (s->in_end) {
     const InItem &h = s->in.front();
     if (h.t == IN_EOF) return 0;
